@@ -26,7 +26,11 @@ func (*urlencodedBodyProcessor) ProcessRequest(reader io.Reader, v plugintypes.T
 	values := urlutil.ParseQuery(b, '&')
 	argsCol := v.ArgsPost()
 	for k, vs := range values {
-		argsCol.Set(k, vs)
+		// Add, not Set: names differing only in letter case share a bucket of the (case
+		// insensitive) collection and Set would let the last one replace the others.
+		for _, v := range vs {
+			argsCol.Add(k, v)
+		}
 	}
 	v.RequestBody().(*collections.Single).Set(b)
 	v.RequestBodyLength().(*collections.Single).Set(strconv.Itoa(len(b)))
